@@ -131,8 +131,18 @@ def seeded(vc, a):
             for f in glob.glob(os.path.join(ROOT, "replays", "*.json")):
                 os.remove(f)
     print(json.dumps(results, indent=1))
-    with open(os.path.join(ROOT, "evidence", "selftest_seeded.json"), "w") as f:
-        json.dump(results, f, indent=1)
+    out = os.path.join(ROOT, "evidence", "selftest_seeded.json")
+    merged = {}
+    if a.profiles and os.path.exists(out):
+        # a partial run updates the entries it covered
+        try:
+            merged = json.load(open(out))
+        except Exception:
+            merged = {}
+    merged.update(results)
+    merged = {k: merged[k] for k in sorted(merged) if os.path.isdir(os.path.join(ROOT, "seeded", k))}
+    with open(out, "w") as f:
+        json.dump(merged, f, indent=1)
     return 0
 
 
